@@ -1099,8 +1099,64 @@ var detOps = func() []string {
 		sh := append([]byte{0x43}, seq(cl+4, 1)...)
 		ops = append(ops, fmt.Sprintf("cut shdr %d %s", cl, hx(sh)), fmt.Sprintf("cut cid %d %s", cl, hx(sh)))
 	}
+	ops = append(ops, memDetOps()...)
 	return ops
 }()
+
+// memDetOps: deterministic memory-ownership scenarios (mem_test.go). One versions slice with spare capacity
+// serves eight Version Negotiation packets; large STREAM frames of every flag combination are parsed into
+// pooled objects that were used before; encoders append behind existing content with and without spare
+// capacity; parsers read windows of a larger buffer that is overwritten afterwards.
+func memDetOps() []string {
+	var ops []string
+	rep := func(op string, n int) string {
+		l := make([]string, n)
+		for i := range l {
+			l[i] = op
+		}
+		return strings.Join(l, " ;; ")
+	}
+	for _, via := range []string{"c", "g"} {
+		ops = append(ops,
+			rep("vnc via="+via+" d=0102030405060708 s=090a0b0c v=1798521807,1 voff=0 vslk=6 boff=0 bslk=0", 8),
+			rep("vnc via="+via+" d=- s=a1a2a3a4a5a6a7a8a9aaabacadaeafb0b1b2b3b4b5 v=10,18,29 voff=1 vslk=3 boff=2 bslk=3", 8),
+			rep("vnc via="+via+" d=0102 s=03 v=1 voff=0 vslk=1 boff=0 bslk=0", 6)+" ;; "+rep("vnc via="+via+" d=0102 s=03 v=1,1798521807,4278190109 voff=2 vslk=0 boff=0 bslk=1", 3))
+	}
+	// STREAM frames with >= MinStreamFrameBufferSize data bytes, every type-bit combination
+	var dd []string
+	for bits := 0; bits < 8; bits++ {
+		for _, n := range []int{128, 131, 1200} {
+			b := []byte{byte(0x08 | bits)}
+			b = putVarint(b, uint64(4*bits+1), 1)
+			if bits&4 != 0 {
+				b = putVarint(b, 70000, 4)
+			}
+			if bits&2 != 0 {
+				b = putVarint(b, uint64(n), 2)
+			}
+			b = append(b, seq(n, byte(bits))...)
+			dd = append(dd, "dirty dec A 111 3 "+hx(b))
+		}
+	}
+	ops = append(ops, strings.Join(dd[:12], " ;; "), strings.Join(dd[12:], " ;; "))
+	ops = append(ops, strings.Join([]string{
+		"dirty ssplit 40 stream sid=5 off=1000 fin=1 len=1 data=" + hx(seq(100, 1)),
+		"dirty ssplit 40 stream sid=5 off=1000 fin=0 len=0 data=" + hx(seq(100, 1)),
+		"dirty ssplit 70 stream sid=9 off=0 fin=1 len=0 data=" + hx(seq(200, 7)),
+		"dirty ssplit 200 stream sid=9 off=16383 fin=0 len=1 data=" + hx(seq(1300, 9)),
+	}, " ;; "))
+	stream := "stream sid=5 off=70000 fin=1 len=1 data=" + hx(seq(140, 3))
+	lh := "t=1 v=1 d=0102030405060708 s=0a0b0c0d tok=f1f2f3 len=300 pn=77 pnl=2"
+	var at []string
+	for _, ps := range [][2]int{{0, 0}, {7, 0}, {7, 3}, {7, 400}, {33, 5000}} {
+		at = append(at, fmt.Sprintf("at %d %d enc %s", ps[0], ps[1], stream), fmt.Sprintf("at %d %d enclhdr %s", ps[0], ps[1], lh),
+			fmt.Sprintf("at %d %d encshdr d=0102030405060708 pn=4660 pnl=3 kp=1", ps[0], ps[1]),
+			fmt.Sprintf("at %d %d enc ack d=8000 e=1,2,3 r=10-20;1-5", ps[0], ps[1]), fmt.Sprintf("at %d %d venc 16384", ps[0], ps[1]),
+			fmt.Sprintf("at %d %d enc crypto off=16383 data=%s", ps[0], ps[1], hx(seq(64, 9))))
+	}
+	ops = append(ops, strings.Join(at, " ;; "))
+	return ops
+}
 
 // ---------------------------------------------------------------- GenOp
 
@@ -1135,6 +1191,54 @@ func (rn *runner) GenOp(r *vh.Rand, i int) string {
 			return fmt.Sprintf("vsweep2 %d", c-16-len(detOps))
 		}
 	}
+	if r.Chance(2) { // one versions slice serves a run of Version Negotiation packets
+		via := []string{"c", "g"}[r.Pick(70, 30)]
+		text := vncText(r)
+		n := 2 + r.Intn(6)
+		var seq []string
+		for k := 0; k < n; k++ {
+			if r.Chance(8) {
+				text = vncText(r) // the application swaps in another list
+			}
+			seq = append(seq, "vnc via="+via+" "+text)
+		}
+		// the follow-up parse of each packet comes right behind it (Exec pushes it in front of the rest)
+		rn.push(seq[1:]...)
+		return seq[0]
+	}
+	if r.Chance(2) { // a large STREAM frame parsed into a used pool object
+		bits := r.Intn(8)
+		n := []int{128, 129, 200, 1000, 1452}[r.Intn(5)]
+		b := []byte{byte(0x08 | bits)}
+		b = vi(r, b, small(r))
+		if bits&4 != 0 {
+			b = vi(r, b, val(r)&(1<<40-1))
+		}
+		if bits&2 != 0 {
+			b = vi(r, b, uint64(n))
+			if r.Chance(20) {
+				b = append(b, r.Bytes(3)...)
+			}
+		}
+		b = append(b, r.Bytes(n)...)
+		return "dirty dec " + ctxOf(r) + " " + hx(b)
+	}
+	op := rn.genRandom(r)
+	if firstWord(op) == "ssplit" && r.Chance(25) {
+		return "dirty " + op
+	}
+	if atKinds[firstWord(op)] && len(op) < 8000 {
+		switch {
+		case r.Chance(9):
+			return fmt.Sprintf("at %d %d %s", []int{0, 1, 7, 33}[r.Intn(4)], []int{0, 0, 1, 3, 9, 64, 2000}[r.Intn(7)], op)
+		case firstWord(op) == "dec" && r.Chance(3):
+			return "dirty " + op
+		}
+	}
+	return op
+}
+
+func (rn *runner) genRandom(r *vh.Rand) string {
 	switch r.Pick(22, 26, 14, 6, 6, 12, 8, 4, 2, 4, 4) {
 	case 0: // structured frame -> enc (+ dec of the output)
 		return "enc " + frameText(r)
@@ -1382,6 +1486,46 @@ func (rn *runner) GenOp(r *vh.Rand, i int) string {
 				return "cut tpdec " + pers + " " + hx(tpBytes(r, sv))
 			}
 			return tpbOp(pers, id, v, r.Chance(70))
+		}
+		if r.Chance(12) { // the session ticket envelope of internal/handshake/session_ticket.go
+			switch r.Pick(40, 40, 20) {
+			case 0:
+				return "stk " + tpText(r)
+			case 1:
+				rev := uint64(5)
+				if r.Chance(25) {
+					rev = []uint64{0, 4, 6, 63, 64, 1 << 40}[r.Intn(6)]
+				}
+				b := vi(r, nil, rev)
+				if r.Chance(85) {
+					b = append(b, 1)
+				} else {
+					b = append(b, byte(r.Intn(4)))
+				}
+				b = append(b, tpBytes(r, true)...)
+				if r.Chance(10) {
+					b = b[:r.Intn(len(b)+1)]
+				}
+				return "stkdec " + hx(b)
+			default:
+				var es []string
+				for k := r.Intn(5); k > 0; k-- {
+					switch r.Pick(35, 35, 15, 15) {
+					case 0:
+						es = append(es, "+"+rhex(r, r.Intn(12)))
+					case 1:
+						es = append(es, rhex(r, 1+r.Intn(12)))
+					case 2:
+						es = append(es, hx([]byte("quic-go1")[:1+r.Intn(8)]))
+					default:
+						es = append(es, hx(append([]byte("quic-go1"), r.Bytes(r.Intn(4))...)))
+					}
+				}
+				if len(es) == 0 {
+					return "stkx -"
+				}
+				return "stkx " + strings.Join(es, ",")
+			}
 		}
 		switch r.Pick(55, 25, 10, 10) {
 		case 0:
